@@ -322,17 +322,60 @@ def check(ctx):
     ctx.inst('R7', ul, 'fresh-sample-per-packet', okf, 'the decoded values are collected in a dictionary created for this packet ({} / dict()), not in an object kept on the block')
     lp = [l for l in walk_own(ul.node) if isinstance(l, ast.For)]
     ctx.need(len(lp) == 1, 'unpack_log_data: loop not found')
-    body = {norm(s.targets[0]) if isinstance(s, ast.Assign) else norm(s.target): norm(s.value) for s in lp[0].body if isinstance(s, (ast.Assign, ast.AugAssign))}
+    dname = dc[0][1].args[1].id if len(dc) == 1 and len(dc[0][1].args) == 3 and isinstance(dc[0][1].args[1], ast.Name) else None      # the dictionary handed to the callbacks
     vn = norm(lp[0].target)
     ctx.inst('R7', ul, 'in-order', norm(lp[0].iter) == 'self.variables', 'variables are decoded in configuration order')
-    ctx.inst('R7', ul, 'size-from-table', body.get('size') == 'LogTocElement.get_size_from_id(%s.fetch_as)' % vn, 'size of each value from the type table (fetch_as)')
-    ctx.inst('R7', ul, 'format-from-table', body.get('unpackstring') == 'LogTocElement.get_unpack_string_from_id(%s.fetch_as)' % vn, 'format of each value from the type table (fetch_as)')
-    ctx.inst('R7', ul, 'slice', body.get('value') == 'struct.unpack(unpackstring, %s[data_index:data_index + size])[0]' % ul.params[1], 'value decoded from [data_index : data_index + size]')
-    adv = [s for s in lp[0].body if isinstance(s, ast.AugAssign) and norm(s.target) == 'data_index']
-    ctx.inst('R7', ul, 'advance', len(adv) == 1 and isinstance(adv[0].op, ast.Add) and norm(adv[0].value) == 'size', 'data_index advances by the size just decoded')
-    ctx.inst('R7', ul, 'keyed-by-name', body.get('ret_data[name]') == 'value' and body.get('name') == '%s.name' % vn, 'result keyed by variable name')
+    # one iteration, read symbolically: the locals of the body are replaced by what they stand for, so the rules below hold for any
+    # spelling (size kept in a local or not, `x, = unpack(..)` or `unpack(..)[0]`, `i += size` or `end = i + size .. i = end`)
+    import copy as _copy
+
+    class _Sub(ast.NodeTransformer):
+        def __init__(self, env):
+            self.env = env
+
+        def visit_Name(self, n):
+            return _copy.deepcopy(self.env[n.id]) if isinstance(n.ctx, ast.Load) and n.id in self.env else n
+    env, stores_, straight = {}, [], True
+    for s_ in lp[0].body:
+        if isinstance(s_, ast.AnnAssign) and s_.value is not None:
+            s_ = ast.Assign(targets=[s_.target], value=s_.value)
+        if isinstance(s_, ast.Assign) and len(s_.targets) == 1:
+            tg, val = s_.targets[0], _Sub(env).visit(_copy.deepcopy(s_.value))
+            if isinstance(tg, (ast.Tuple, ast.List)) and len(tg.elts) == 1:
+                tg, val = tg.elts[0], ast.Subscript(value=val, slice=ast.Constant(value=0), ctx=ast.Load())       # x, = E : the first (only) element
+            if isinstance(tg, ast.Name):
+                env[tg.id] = val
+            elif isinstance(tg, ast.Subscript):
+                stores_.append((norm(_Sub(env).visit(_copy.deepcopy(tg.value))), norm(_Sub(env).visit(_copy.deepcopy(tg.slice))), val))
+            else:
+                straight = False
+        elif isinstance(s_, ast.AugAssign) and isinstance(s_.target, ast.Name):
+            env[s_.target.id] = ast.BinOp(left=_copy.deepcopy(env.get(s_.target.id, ast.Name(id=s_.target.id, ctx=ast.Load()))), op=s_.op, right=_Sub(env).visit(_copy.deepcopy(s_.value)))
+        elif isinstance(s_, ast.Expr) and isinstance(s_.value, ast.Constant):
+            pass
+        else:
+            straight = False
+    ctx.need(straight, 'unpack_log_data: the loop body is not a straight line of bindings')
+    SIZE = 'LogTocElement.get_size_from_id(%s.fetch_as)' % vn
+    FMT = 'LogTocElement.get_unpack_string_from_id(%s.fetch_as)' % vn
+    ups = [c for _, _, v_ in stores_ for c in ast.walk(v_) if isinstance(c, ast.Call) and norm(c.func) == 'struct.unpack']
+    up = ups[0] if len(ups) == 1 and len(stores_) == 1 and len(ups[0].args) == 2 else None
+    sl = up.args[1] if up is not None and isinstance(up.args[1], ast.Subscript) and isinstance(up.args[1].slice, ast.Slice) else None
+    # the running index: the one local the body re-binds in terms of itself, and the slice starts at
+    idx = norm(sl.slice.lower) if sl is not None and isinstance(sl.slice.lower, ast.Name) else None
+    hi = norm(sl.slice.upper) if sl is not None and sl.slice.upper is not None else None
+    ctx.inst('R7', ul, 'size-from-table', idx is not None and hi in ('%s + %s' % (idx, SIZE), '%s + %s' % (SIZE, idx)), 'size of each value from the type table (fetch_as); the slice ends at %s' % hi)
+    ctx.inst('R7', ul, 'format-from-table', up is not None and norm(up.args[0]) == FMT, 'format of each value from the type table (fetch_as); found %s' % (norm(up.args[0]) if up is not None else None))
+    ctx.inst('R7', ul, 'slice', sl is not None and norm(sl.value) == ul.params[1] and sl.slice.step is None and idx is not None and
+             norm(stores_[0][2]) == 'struct.unpack(%s, %s[%s:%s])[0]' % (FMT, ul.params[1], idx, hi), 'value = first element decoded from %s[index : index + size]; found %s' %
+             (ul.params[1], norm(stores_[0][2]) if stores_ else None))
+    adv = norm(env[idx]) if idx in env else None
+    ctx.inst('R7', ul, 'advance', adv in ('%s + %s' % (idx, SIZE), '%s + %s' % (SIZE, idx)), 'the index advances by the size just decoded; after one iteration it is %s' % adv)
+    # the dictionary the values go to is the one delivered (checked by deliver-once / fresh-sample-per-packet through its name)
+    ctx.inst('R7', ul, 'keyed-by-name', len(stores_) == 1 and stores_[0][1] == '%s.name' % vn and stores_[0][0] == dname, 'result keyed by variable name, in the dictionary that is delivered (%s); stores %s' %
+             (dname, [(a_, b_) for a_, b_, _ in stores_]))
     dc = [c for c in walk_own(ul.node) if method_call(c, 'call') and norm(c.func.value) == 'self.data_received_cb']
-    ctx.inst('R7', ul, 'deliver-once', len(dc) == 1 and [norm(a) for a in dc[0].args] == [ul.params[2], 'ret_data', 'self'] and dc[0] not in list(walk_own(lp[0])),
+    ctx.inst('R7', ul, 'deliver-once', len(dc) == 1 and [norm(a) for a in dc[0].args] == [ul.params[2], dname, 'self'] and dc[0] not in list(walk_own(lp[0])),
              'data_received_cb is called once per packet with (timestamp, data, self)')
 
     # ---- R8 ---------------------------------------------------------------------------------------
